@@ -471,26 +471,58 @@ def run(read, strip_comments, TranslatorError, HEADER, coq_bytes, rust_bytes_lit
                 fail("%s.%s: maybe_/Option mismatch (type %s)" % (group, name, ty))
             copts.append((group, fld, c, ty, "c_gfm c" in c))
 
-    # every Options field of the default feature set: set by the chains or left at the builder default
+    # every Options field of the default feature set, in declaration order: set by the chains, or left at
+    # the builder default (bon: #[builder(default)] = Default::default(); Option<_> fields default to None)
     psrc = strip_comments(read("src/parser/mod.rs"))
+    setmap = {(g, f): (cq, ty, gf) for g, f, cq, ty, gf in copts}
+    RTY = {"bool": "bool", "usize": "num", "Option<String>": "optstring", "ListStyleType": "lst"}
+    DEFAULT = {"bool": "false", "num": "0%N", "optstring": "None", "lst": None}
+    lm = re.search(r"pub enum ListStyleType \{(.*?)\}", psrc, re.S)
+    if not lm:
+        fail("enum ListStyleType not found")
+    dm = re.search(r"#\[default\]\s*(\w+)\s*=", lm.group(1))
+    lst_all = re.findall(r"(\w+)\s*=\s*\d+", lm.group(1))
+    if not dm or sorted(lst_all) != sorted(lst_variants):
+        fail("enum ListStyleType changed: variants %r, default %r" % (lst_all, dm and dm.group(1)))
+    DEFAULT["lst"] = "LST_" + dm.group(1)
     unset = []
+    full = []   # (group, field, coq expr, type, mentions_gfm, set_by_chain)
     for group, sname in (("extension", "ExtensionOptions"), ("parse", "ParseOptions"), ("render", "RenderOptions")):
         sm = re.search(r"pub struct %s(?:<'c>)? \{" % sname, psrc)
         if not sm:
             fail("struct %s not found in src/parser/mod.rs" % sname)
         send = balanced(psrc, sm.end() - 1, "{", "}")
         sbody = psrc[sm.end():send - 1]
-        allf = re.findall(r"((?:#\[[^\n]*\]\s*)*)pub ([a-z_][a-z0-9_]*)\s*:", sbody)
+        allf = re.findall(r"((?:#\[[^\n]*\]\s*)*)pub ([a-z_][a-z0-9_]*)\s*:\s*([^\n]*?),\s*\n", sbody)
         names = []
-        for at, n in allf:
+        for at, n, rty in allf:
             if 'cfg(feature = "shortcodes")' in at:
                 continue
             names.append(n)
-        setf = [f for g, f, _, _, _ in copts if g == group]
-        for f in setf:
-            if f not in names:
+            rty = norm(rty)
+            if rty not in RTY:
+                # callbacks / rewriters: no flag can set them
+                if (group, n) in setmap:
+                    fail("%s chain sets %s of type %s" % (group, n, rty))
+                if not rty.startswith("Option<Arc<dyn "):
+                    fail("%s.%s has a type the translator does not know: %s" % (sname, n, rty))
+                unset.append((group, n))
+                continue
+            ty = RTY[rty]
+            if (group, n) in setmap:
+                cq, sty, gf = setmap[(group, n)]
+                if sty != ty:
+                    fail("%s.%s: builder argument of type %s for a field of type %s" % (group, n, sty, rty))
+                full.append((group, n, cq, ty, gf, True))
+            else:
+                if ty != "optstring" and "builder(default)" not in at:
+                    fail("%s.%s is not set by main() and has no #[builder(default)]" % (sname, n))
+                unset.append((group, n))
+                full.append((group, n, DEFAULT[ty], ty, False, False))
+        for g, f, _, _, _ in copts:
+            if g == group and f not in names:
                 fail("%s chain sets %s which is not a field of %s" % (group, f, sname))
-        unset += [(group, n) for n in names if n not in setf]
+    copts = [(g, f, cq, ty, gf) for g, f, cq, ty, gf, _ in full]
 
     # highlighter
     need('''let theme = cli.syntax_highlighting; if theme.is_empty() || theme == "none" { syntax_highlighter = None; }
@@ -613,7 +645,7 @@ def run(read, strip_comments, TranslatorError, HEADER, coq_bytes, rust_bytes_lit
     s += ";\n".join(rows) + "\n|}.\n\n"
 
     # copts
-    s += "(* ---- Options as assembled by main(): one field per builder call, in source order *)\n"
+    s += "(* ---- Options as assembled by main(): one field per data field of the three option structs, in declaration\n   order; a field no builder call sets has the builder default *)\n"
     s += "Record copts := {\n" + ";\n".join("  o_%s : %s" % (fld, TY[ty]) for _, fld, _, ty, _ in copts) + "\n}.\n\n"
     s += "Definition options_of_cli (c : cli) : copts := {|\n"
     s += ";\n".join("  o_%s := %s" % (fld, c) for _, fld, c, _, _ in copts) + "\n|}.\n\n"
